@@ -95,13 +95,13 @@ fn gen_zero_weight_space(rng: &mut Xo, o: &GenOpts) -> SpaceSpec {
     match rng.below(4) {
         0 => {
             let mut b = gen_box(rng, 2);
-            b.push(gen_so2_bounds(rng, false).unwrap_or((-PI, PI)));
+            b.push(gen_so2_bounds(rng, o.angular_bias).unwrap_or((-PI, PI)));
             let native = rng.chance(0.5);
             SpaceSpec::SE2 { weight: 0.0, bounds: b, frac_t: if native { 0.05 } else { pick_frac(rng, mf) }, frac_r: if native { 0.05 } else { pick_frac(rng, mf) }, native }
         }
         1 => {
             let native = rng.chance(0.5);
-            SpaceSpec::SE3 { weight: 0.0, bounds: gen_box(rng, 3), cone: None, frac_t: if native { 0.05 } else { pick_frac(rng, mf) }, frac_r: if native { 0.05 } else { pick_frac(rng, mf) }, native }
+            SpaceSpec::SE3 { weight: 0.0, bounds: gen_box(rng, 3), cone: if native { None } else if o.angular_bias { gen_so3_bounds(rng, true) } else { None }, frac_t: if native { 0.05 } else { pick_frac(rng, mf) }, frac_r: if native { 0.05 } else { pick_frac(rng, mf) }, native }
         }
         _ => {
             let n = rng.usize_in(2, 3);
@@ -116,8 +116,8 @@ fn gen_zero_weight_space(rng: &mut Xo, o: &GenOpts) -> SpaceSpec {
                         let dim = rng.usize_in(1, 2);
                         SpaceSpec::RV { dim, bounds: Some(gen_box(rng, dim)), frac: pick_frac(rng, mf) }
                     }
-                    1 => SpaceSpec::SO2 { bounds: gen_so2_bounds(rng, false), frac: pick_frac(rng, mf) },
-                    _ => SpaceSpec::SO3 { bounds: None, frac: pick_frac(rng, mf) },
+                    1 => SpaceSpec::SO2 { bounds: gen_so2_bounds(rng, o.angular_bias), frac: pick_frac(rng, mf) },
+                    _ => SpaceSpec::SO3 { bounds: if o.angular_bias { gen_so3_bounds(rng, true) } else { None }, frac: pick_frac(rng, mf) },
                 });
                 weights.push(if i == zero { 0.0 } else { *rng.pick(&[0.5, 1.0, 1.0, 2.0]) });
             }
@@ -385,11 +385,21 @@ pub fn build_world(geo: &mut Box<dyn Geo>, rng: &mut Xo, ext: f64, family: &'sta
                     world.obstacles.push(Obstacle::Ball { c, r: goal_radius * rng.range(0.5, 0.95) });
                 }
             }
+            let mut target = target;
             if family == "start_in_obstacle" {
                 let r = rng.range(0.08, 0.3) * ext;
                 let depth = r * rng.log_range(1e-9, 0.5);
                 if let Some(c) = geo.sample(rng) {
                     if let Some(s) = point_at(&**geo, rng, &c, r - depth) {
+                        // a fifth of the time the goal region contains the rejected start (the
+                        // target itself sits just outside the obstacle)
+                        if rng.chance(0.2) {
+                            if let Some(t) = point_at(&**geo, rng, &c, r + 0.3 * goal_radius) {
+                                if geo.d(&t, &s) < 0.9 * goal_radius {
+                                    target = t;
+                                }
+                            }
+                        }
                         world.obstacles.push(Obstacle::Ball { c, r });
                         start = s;
                     }
@@ -549,6 +559,32 @@ pub fn build_world(geo: &mut Box<dyn Geo>, rng: &mut Xo, ext: f64, family: &'sta
                 return open(geo, rng, "open");
             }
             WorldBuild { world, start, target, goal_radius, family, sealed: false, start_invalid: false, goal_comp }
+        }
+        "sealed_by_bounds" => {
+            // SO(2) bounded to an arc: an obstacle blocks the way inside the arc, the only other
+            // way leads through the excluded gap at +-pi, i.e. out of bounds — no valid path
+            let (lo, hi) = match geo.spec() {
+                SpaceSpec::SO2 { bounds: Some((lo, hi)), .. } if *lo < -1.5 && *hi > 1.5 && (*lo > -PI + 1e-3 || *hi < PI - 1e-3) => (*lo, *hi),
+                _ => return build_world(geo, rng, ext, "sealed_goal"),
+            };
+            let gap = (lo + PI) + (PI - hi);
+            if !(gap > 4.0 * l + 1e-6) {
+                // the gap must be wider than any motion-check spacing could step over unnoticed
+                return build_world(geo, rng, ext, "sealed_goal");
+            }
+            let c = rng.range(-0.4, 0.4);
+            let r = (l * rng.range(1.5, 4.0)).max(0.05).min(0.6);
+            let world = WorldSpec { obstacles: vec![Obstacle::Ball { c: vec![c], r }] };
+            geo.set_worlds(&[world.clone()]);
+            let a = rng.range(lo + 0.02, c - r - 0.05);
+            let b = rng.range(c + r + 0.05, hi - 0.02);
+            let (start, target) = if rng.chance(0.5) { (vec![a], vec![b]) } else { (vec![b], vec![a]) };
+            let room = (target[0] - c).abs() - r;
+            let gr = goal_radius.min(0.5 * room).min(0.5 * (hi - target[0]).abs().max(1e-3)).min(0.5 * (target[0] - lo).abs().max(1e-3));
+            if !(gr > 0.0) || !geo.valid(0, &start) || !geo.valid(0, &target) {
+                return open(geo, rng, "open");
+            }
+            WorldBuild { world, start, target, goal_radius: gr, family, sealed: true, start_invalid: false, goal_comp: None }
         }
         "goal_invalid" => {
             let mut wb = open(geo, rng, "goal_invalid");
@@ -753,7 +789,14 @@ pub fn construct_call(samples: u64) -> CallSpec {
 pub fn base(rng: &mut Xo, prop: &str, seed: u64, index: u64, o: &GenOpts) -> Scenario {
     let fams: Vec<&'static str> = if o.families.is_empty() { FAMILIES.to_vec() } else { o.families.clone() };
     let fam = *rng.pick(&fams);
-    let space = if fam == "zero_weight" { gen_space(rng, &GenOpts { zero_weight: true, ..o.clone() }) } else { gen_space(rng, o) };
+    let space = if fam == "zero_weight" {
+        gen_space(rng, &GenOpts { zero_weight: true, ..o.clone() })
+    } else if fam == "sealed_by_bounds" {
+        let m = rng.range(0.3, 1.2);
+        SpaceSpec::SO2 { bounds: Some((-PI + m * rng.range(0.4, 1.0), PI - m * rng.range(0.4, 1.0))), frac: *rng.pick(&[0.05, 0.05, 0.01, 0.02]) }
+    } else {
+        gen_space(rng, o)
+    };
     let mut geo = geo_for(&space).expect("generated spaces build");
     let ext = extent(&*geo, rng);
     let wb = build_world(&mut geo, rng, ext, fam);
